@@ -133,6 +133,17 @@ def linear_problem(draw, max_n=9, max_extra=10, unit_cov=False, singular_only=Fa
     elif mode == "subset":
         k = draw(st.integers(max(d, 1), n))
         minx = sorted(i + 1 for i in draw(st.permutations(list(range(n))))[:k])
+    elif mode == "nonres":
+        # a subset that cannot fix the null space: columns outside the support of every
+        # null vector, or fewer columns than the defect
+        inv = {p: i for i, p in enumerate(perm)}
+        free = [inv[k] for k in range(r) if all(c[k] == 0 for c in combos)]
+        if free and draw(st.booleans()):
+            k = draw(st.integers(1, len(free)))
+            minx = sorted(i + 1 for i in draw(st.permutations(free))[:k])
+        else:
+            k = draw(st.integers(0, d - 1))
+            minx = sorted(i + 1 for i in draw(st.permutations(list(range(n))))[:k])
     if minx is not None and draw(st.booleans()):
         minx = list(draw(st.permutations(minx)))
     return {"m": int(m), "n": int(n), "A": A.tolist(), "b": b, "blocks": blocks,
